@@ -164,11 +164,31 @@ def run_script(sc, max_loops=60000):
          ["run", dt]               let virtual time pass
        Returns per-request outcome times.  Peers listed in sc["silent"] never answer."""
     from bacpypes.task import FunctionTask
+    if sc.get("route_aware"):
+        # a supported non-default global setting; restored when the scenario is over
+        from bacpypes.settings import settings as _settings
+        _settings.route_aware = True
+        try:
+            return _run_script(dict(sc, route_aware=False), max_loops, ra=True)
+        finally:
+            _settings.route_aware = False
+    return _run_script(sc, max_loops)
+
+
+def _run_script(sc, max_loops, ra=False):
+    from bacpypes.task import FunctionTask
     net = _e2e.E2ENet()
-    a = net.add_stack(10, use_iocb=sc.get("iocb", False), **sc.get("a", {}))
+    lan2 = None
+    akw = dict(sc.get("a", {}))
+    if sc.get("routed"):
+        # the peers live on network 2 behind a real router; the client on network 1 writes them "2:<mac>"
+        lan2 = net.add_router(1, 2)
+        akw.update(net_number=1, spell="routed", peer_net=2)
+    a = net.add_stack(10, use_iocb=sc.get("iocb", False), **akw)
     peers = {}
     for devid in sc["peers"]:
-        st = net.add_stack(devid, max_apdu=128, net_number=sc.get("a", {}).get("net_number"))
+        st = net.add_stack(devid, max_apdu=128, lan=lan2,
+                           net_number=(2 if sc.get("routed") else sc.get("a", {}).get("net_number")))
         st.server_mode = "silent" if devid in sc.get("silent", []) else ("slow-echo" if devid in sc.get("slow", []) else "echo")
         st.response_payload = pattern(12, devid)
         peers[devid] = st
